@@ -505,7 +505,7 @@ func (v *VerifC35) Headers(id uint32, end bool, kind string) string {
 				if e == id {
 					return "ok" // served by the normal handler, which now waits for its command
 				}
-			case <-time.After(30 * time.Second):
+			case <-time.After(300 * time.Second):
 				return "HANG"
 			}
 		}
@@ -554,7 +554,7 @@ func (v *VerifC35) HandlerBody(id uint32, n int) string {
 		var wm frameWriteMsg
 		select {
 		case wm = <-v.sc.wantWriteFrameCh:
-		case <-time.After(30 * time.Second):
+		case <-time.After(300 * time.Second):
 			return "HANG"
 		}
 		res = v.outcome(func() bool { v.sc.writeFrame(wm); return true })
@@ -759,7 +759,7 @@ func (r *VerifC35Real) onLoop(f func(sc *serverConn)) bool {
 		return true
 	case <-sc.doneServing:
 		return false
-	case <-time.After(30 * time.Second):
+	case <-time.After(300 * time.Second):
 		return false
 	}
 }
